@@ -617,6 +617,104 @@ def displayed (o : Opts) : Tree → Tree
 def renderTree (st : Sites) (o : Opts) (v : Tree) : Str :=
   render st o.toCtx o.top (o.name.map Key.summaryName) [] (displayed o v)
 
+/-! ### (5) the controls (views/html/controls/{label,tooltip,progress_bar,tab}.py)
+
+Element ids (`HtmlControl.element_id`: the given id, or `control-<address>` for interactive
+controls), the formatted progress texts and `camel_to_snake(name)` are inputs of the model. -/
+
+/-- One Boolean per emission site of user-derived text in the controls (from T-ESC). -/
+structure CSites where
+  labelText : Bool          -- `Label.text` (str) in span.label / a.label
+  tooltipContent : Bool     -- `Tooltip.content` (str) in span.tooltip
+  subProgressClass : Bool   -- `camel_to_snake(SubProgress.name)` in the class attribute
+  deriving DecidableEq, Repr
+
+def CSites.allEscaped (s : CSites) : Bool := s.labelText && s.tooltipContent && s.subProgressClass
+
+/-- `Tooltip._to_html` for a str content. -/
+def tooltipCtl (cs : CSites) (content : Str) (id : Option Str) (css : List Str)
+    (styles : List (Str × Option Str)) : Str :=
+  element c!"span" [] (c!"tooltip" :: css) styles [(c!"id", id)] [emit cs.tooltipContent content]
+
+structure LabelM where
+  text : Str
+  tooltip : Option Str := none      -- a str tooltip (converted to a Tooltip control)
+  link : Option Str := none
+  target : Option Str := none
+  id : Option Str := none
+  tipId : Option Str := none
+  css : List Str := []
+  styles : List (Str × Option Str) := []
+  deriving Repr
+
+/-- `Label._to_html` for a str text. -/
+def labelCtl (cs : CSites) (l : LabelM) : Str :=
+  let textElem :=
+    element (if l.link.isSome then c!"a" else c!"span") [] (c!"label" :: l.css) l.styles
+      [(c!"id", l.id), (c!"href", l.link), (c!"target", l.target)] [emit cs.labelText l.text]
+  match l.tooltip with
+  | none => textElem
+  | some t =>
+    element c!"div" [] [c!"label-container"] [] [] [textElem, tooltipCtl cs t l.tipId [] []]
+
+structure SubM where
+  cssName : Str              -- camel_to_snake(name, '-')
+  width : Option Str         -- f'{value / total:.0%}' or None
+  id : Option Str
+  css : List Str := []
+  deriving Repr
+
+/-- `SubProgress._to_html`. -/
+def subProgressCtl (cs : CSites) (sp : SubM) : Str :=
+  element c!"div" [] (c!"sub-progress" :: emit cs.subProgressClass sp.cssName :: sp.css)
+    [(c!"width", sp.width)] [(c!"id", sp.id)] []
+
+def concatMap {α : Type} (f : α → Str) : List α → Str
+  | [] => []
+  | x :: xs => f x ++ concatMap f xs
+
+/-- `ProgressBar._to_html`: the shade with the sub-progress bars, then the progress label. -/
+def progressBarCtl (cs : CSites) (subs : List SubM) (label : LabelM) : Str :=
+  element c!"div" [] [c!"progress-bar"] [] []
+    [element c!"div" [] [c!"shade"] [] [] [concatMap (subProgressCtl cs) subs], labelCtl cs label]
+
+structure TabM where
+  label : LabelM
+  content : Str            -- the tab's Html content, already rendered markup
+  css : List Str := []
+  id : Option Str          -- element_id(str(i))
+  deriving Repr
+
+def tabButtons (cs : CSites) (ctlId : Str) (selected : Nat) : Nat → List TabM → Str
+  | _, [] => []
+  | i, t :: ts =>
+    element c!"button" []
+      (c!"tab-button" :: ((if i == selected then [c!"selected"] else []) ++ t.css)) []
+      [(c!"onclick", some (c!"openTab(event, '" ++ ctlId ++ c!"', '" ++ t.id.getD c!"None" ++ c!"')"))]
+      [labelCtl cs t.label]
+    ++ tabButtons cs ctlId selected (i + 1) ts
+
+def tabContents (selected : Nat) : Nat → List TabM → Str
+  | _, [] => []
+  | i, t :: ts =>
+    element c!"div" []
+      (c!"tab-content" :: ((if i == selected then [c!"selected"] else []) ++ t.css)) []
+      [(c!"id", t.id)] [t.content]
+    ++ tabContents selected (i + 1) ts
+
+/-- `TabControl._to_html`. -/
+def tabCtl (cs : CSites) (ctlId : Str) (bgId cgId : Option Str) (left : Bool) (selected : Nat)
+    (css : List Str) (styles : List (Str × Option Str)) (tabs : List TabM) : Str :=
+  let pos := if left then c!"left" else c!"top"
+  element c!"table" [] [c!"tab-control"] styles []
+    [ c!"<tr><td>",
+      element c!"div" [] (c!"tab-button-group" :: pos :: css) [] [(c!"id", bgId)]
+        [tabButtons cs ctlId selected 0 tabs],
+      (if left then c!"</td><td>" else c!"</td></tr><tr><td>"),
+      element c!"div" [] (c!"tab-content-group" :: pos :: css) [] [(c!"id", cgId)]
+        [tabContents selected 0 tabs],
+      c!"</td></tr>" ]
+
 /-! ### what the property expects to find in the output -/
 
 mutual
